@@ -976,7 +976,8 @@ def get_doc_words(pagexml_doc: pdm.PageXMLTextRegion, use_re_word_boundaries: bo
     """
     lines = [line for line in pagexml_doc.get_lines() if line.text is not None]
     if use_re_word_boundaries:
-        return [w.replace(' ', '') for line in lines for w in re.split(r'\b', line.text) if w != ' ' and w != '']
+        words = [w.replace(' ', '') for line in lines for w in re.split(r'\b', line.text)]
+        return [w for w in words if w != '']
     else:
         return [w for line in lines for w in line.text.split(' ') if w != '']
 
